@@ -60,6 +60,8 @@ struct Options {
    uint64_t seed;                         // PRNG seed for policy RANDOM
    enum Policy { RANDOM, NONPREEMPTIVE } policy;   // how decisions beyond the explicit schedule are taken
    std::vector<Choice> schedule;          // explicit decisions, consumed first (a replay)
+   bool     tolerant_schedule;            // false (default): an explicit entry that is not enabled ends the run with BAD_SCHEDULE;
+                                          // true: such entries are skipped (the next entry, or the policy, decides) -- lets a shrinker drop operations
    uint64_t log_kinds;                    // bit k set: events of hook kind k (< 64) are logged.       default: all but the atomics
    uint64_t decide_kinds;                 // bit k set: hook kind k is a decision point.               default: MUTEX_LOCK, WC waits, SEM waits, THREAD_*
    bool     user_kinds_decide;            // kinds >= K_USER are decision points (default true); they are always logged
